@@ -3,6 +3,7 @@ import copy
 import itertools
 
 from harness import sessions
+from harness.common import bud
 from harness.sessions import SB
 
 PROP = "C18"
@@ -251,18 +252,18 @@ def run(ctx, out, budget):
     out.exhaustive_scope = (("every 3rd of " if budget == "quick" else "") +
                             "all graphs of <=2 nodes over (next, other) and all 3-node graphs over next x all paths of <=3 "
                             "segments over {next, other, val, unknown, empty}: get; exhaustive for that sub-space only")
-    nset = 400 if budget == "quick" else 48000
+    nset = bud(budget, 400, 48000)
     for k in range(nset):
         g = rng.choice(graphs) if rng.random() < 0.6 else random_graph(rng, rng.randint(2, 6))
         path = rng.choice(paths3) if rng.random() < 0.7 else random_path(rng, 12)
         v = rng.choice([9, None, ("r", 0), ("r", len(g) - 1), "str"])
         sess.append(set_session(g, rng.randrange(len(g)), path, v, item=(k % 3 == 0)))
-    nget = 100 if budget == "quick" else 12000
+    nget = bud(budget, 100, 12000)
     for _ in range(nget):
         g = random_graph(rng, rng.randint(2, 8))
         sess.append(get_session(g, rng.randrange(len(g)), [random_path(rng, 12) for _ in range(20)]))
     # reserved-name stream (A1): correspondence only
-    for _ in range(20 if budget == "quick" else 1600):
+    for _ in range(bud(budget, 20, 1600)):
         g = random_graph(rng, 3)
         ps = [".".join(rng.choice(SEGS + RESERVED) for _ in range(rng.randint(1, 3))) for _ in range(10)]
         sess.append(get_session(g, 0, ps))
